@@ -41,7 +41,7 @@ namespace PytypeModel.Typegraph
 structure SState where
   pos : NodeId
   goals : List BId
-deriving Repr, BEq, DecidableEq, Inhabited
+deriving Repr, DecidableEq, Inhabited
 
 abbrev Memo := List (SState × Bool)
 
